@@ -423,6 +423,10 @@ class Expr(core.Expr):
     def _filter_simplification(self, parent, predicate=None):
         if predicate is None:
             predicate = parent.predicate.substitute(self, self.frame)
+        elif self.frame.ndim == self.ndim:
+            # callers that rewrite one part of the predicate (e.g. the former
+            # index after reset_index) leave its other parts on self
+            predicate = predicate.substitute(self, self.frame)
         return type(self)(self.frame[predicate], *self.operands[1:])
 
 
